@@ -68,7 +68,12 @@ PRELUDES = {'plain': [], 'sigstate': ['sighandler 10', 'sighandler 13', 'sighand
             # identities without passwd / group entries, real != effective, stdin on a pty: the lookup-miss paths of the identity data sources
             'ids_unknown': ['stdin pty', 'setresgid 54321 54321 54321', 'setresuid 54321 54321 54321'],
             'ids_mixed': ['stdin pty', 'setresgid 1 54321 0', 'setresuid 1 54321 0'],
-            'fds_above_1023': ['openfds 1100']}
+            'fds_above_1023': ['openfds 1100'],
+            # the caller has blocked SIGPIPE / SIGXFSZ / SIGTTOU / SIGUSR1 and one instance of each is PENDING: it must still be pending, and
+            # undelivered, afterwards (the digest holds the pending set; a delivery would kill the process)
+            'blocked_signals_pending': ['sigmask 13', 'sigmask 25', 'sigmask 22', 'sigmask 10', 'raise 13', 'raise 25', 'raise 22', 'raise 10'],
+            # environment values with line feeds / carriage returns in the variables the data sources read
+            'env_with_line_feeds': ['setenv %s %s' % (H.hx(b'LOGNAME'), H.hx(b'alice\nroot')), 'setenv %s %s' % (H.hx(b'SUDO_USER'), H.hx(b'bob\r\nx')), 'setenv %s %s' % (H.hx(b'A'), H.hx(b'l1\nl2'))]}
 
 
 def digest_eq(a, b):
@@ -113,7 +118,10 @@ def run(ck):
         jobs = []
         for pn, pl in PRELUDES.items():
             for name, lines in L.items():
-                if pn.startswith('ids_'):
+                if pn == 'env_with_line_feeds':
+                    if not name.startswith(('ds:login', 'ds:env', 'ds:username', 'exec:')):
+                        continue
+                elif pn.startswith('ids_'):
                     if not name.startswith(('ds:', 'flt:', 'out:file', 'out:devlog')):
                         continue
                 elif pn != 'plain' and not name.startswith(('out:', 'opt:errlog', 'opt:overflow', 'ds:tty', 'ds:cwd', 'ds:login', 'ds:datetime', 'flt:exclude_spawns_of:zz')):
@@ -138,7 +146,7 @@ def run(ck):
                     bad.append((what, d))
             # process attributes must survive even the very FIRST call (library statics and heap may legitimately settle there)
             if 'pre' in ds:
-                d = digest_eq({k: v for k, v in ds['pre'].items() if k in ('fds', 'env', 'cwd', 'umask', 'sigmask', 'sigact')}, {k: v for k, v in ds['end'].items() if k in ('fds', 'env', 'cwd', 'umask', 'sigmask', 'sigact')})
+                d = digest_eq({k: v for k, v in ds['pre'].items() if k in ('fds', 'env', 'cwd', 'umask', 'sigmask', 'sigpending', 'sigact')}, {k: v for k, v in ds['end'].items() if k in ('fds', 'env', 'cwd', 'umask', 'sigmask', 'sigpending', 'sigact')})
                 if d:
                     bad.append(('process_attributes_changed_since_before_first_call', d))
             if heap:
